@@ -451,12 +451,14 @@ def check_write(w, after, policy, now0, fail, bump):
                 fail("ttl", cid, "overwriting the whole value must clear the expiry: ExpireAt %d kept" % exp2, cmd=name, args=w["hexargs"])
         elif name == "setex":
             d = dec(args[1])
-            if 0 < when + d < 2**32 - 2 and exp2 != when + d:
-                fail("ttl", cid, "SETEX stored ExpireAt %d, want %d" % (exp2, when + d), cmd=name, args=w["hexargs"])
+            want = when + d if when + d > 0 else 1     # expireWhen: a second not after the epoch is second 1
+            if want < 2**32 - 2 and exp2 != want:
+                fail("ttl", cid, "SETEX stored ExpireAt %d, want %d" % (exp2, want), cmd=name, args=w["hexargs"])
         elif name.endswith("expire") and reply == ":1":
             d = dec(args[1])
-            if 0 < when + d < 2**32 - 2 and exp2 != when + d:
-                fail("ttl", cid, "EXPIRE stored ExpireAt %d, want %d" % (exp2, when + d), cmd=name, args=w["hexargs"])
+            want = when + d if when + d > 0 else 1
+            if want < 2**32 - 2 and exp2 != want:
+                fail("ttl", cid, "EXPIRE stored ExpireAt %d, want %d" % (exp2, want), cmd=name, args=w["hexargs"])
             bump("expire set")
         elif name.endswith("persist") and reply == ":1":
             if exp2 != 0:
